@@ -537,3 +537,21 @@ func fnvSum(b []byte) uint32 {
 	}
 	return h
 }
+
+// SendCuts delivers client bytes cut exactly at the given stream offsets, settling after each piece.
+func (w *World) SendCuts(c *ClientConn, data []byte, cuts []int) bool {
+	prev := 0
+	for _, cut := range append(append([]int{}, cuts...), len(data)) {
+		if cut <= prev || cut > len(data) {
+			continue
+		}
+		c.C.Deliver(data[prev:cut])
+		w.Stat.ClientSegs++
+		w.logf("send %s %dB (cut at %d)", c.Name, cut-prev, cut)
+		prev = cut
+		if !w.Settle() {
+			return false
+		}
+	}
+	return true
+}
